@@ -8,6 +8,7 @@ from ..tyob import *  # noqa
 from ..tyob import sibling_defaults, analyse, expect, item, unmodelled_in, against_const
 from ..poly import Normaliser, Poly, straightline_env
 from ..program import norm_stmt
+from ..values import K_SLICE
 
 PK = "eqsig.fns.peaks_and_crossings."
 ZC = PK + "get_zero_crossings_array_indices"
@@ -46,15 +47,20 @@ def zero_crossing_rules(chk):
         prod = [(n[0], e) for n, e in z if n is not None and n[0] in ("Lt", "LtE", "Gt", "GtE") and "p:values" in n[1].tags and n[1].kind == K_ARRAY
                 and alg_degree(n[1].a(R)) in (Exp(2), None)]
         chk.ob("R-ZC-STRICT", cc + "{crossing}", "sign change <=> product of neighbours < 0 (strict)", len(prod) == 1 and prod[0][0] == "Lt",
-               derived="%s" % [(op, e.stmt) for op, e in prod], loc=prod[0][1].loc if prod else fi.loc())
+               derived="%s" % [(op, e.stmt) for op, e in prod], loc=prod[0][1].loc if prod else fi.loc(), inconclusive=not prod)
         zeros = [e for n, e in z if n is not None and n[0] == "Eq" and n[1].kind == K_ARRAY and alg_degree(n[1].a(R)) == Exp(1) and
                  "p:values" in n[1].tags and n[1].shape == (LinExpr("n"),)]       # the series itself (a copy or not), full length
-        chk.ob("R-ZC-STRICT", cc + "{zeros}", "exact zeros are `values == 0`", len(zeros) == 1, derived="%d `== 0` test(s) on the values" % len(zeros),
-               loc=zeros[0].loc if zeros else fi.loc())
+        # any other test of the full-length series (or its absolute value) against a literal is a located, different zero test
+        zcand = [e for e in cm if e not in [x for _, x in [(0, y) for y in zeros]] and any(
+            s_.kind == K_ARRAY and "p:values" in s_.tags and s_.shape == (LinExpr("n"),) and alg_degree(s_.a(R)) == Exp(1) and o_.has_const()
+            for s_, o_ in ((e.left, e.right), (e.right, e.left)))]
+        chk.ob("R-ZC-STRICT", cc + "{zeros}", "exact zeros are `values == 0`", len(zeros) == 1, derived="%d `== 0` test(s) on the values%s" % (
+            len(zeros), "; other test(s) of the series against a literal: %s" % [e.stmt for e in zcand] if zcand and not zeros else ""),
+               loc=zeros[0].loc if zeros else (zcand[0].loc if zcand else fi.loc()), inconclusive=not zeros and not zcand)
         adj = [e for e in cm if e.right.has_const() and e.right.const == 1 and "where-index" in e.left.tags]
         if not kaz:
             chk.ob("R-ZC-STRICT", cc + "{adjacent zeros}", "a zero is kept iff its distance to the previous zero is > 1", len(adj) >= 1 and
-                   all(e.op == "Gt" for e in adj if e.left.kind == K_ARRAY), derived="%s" % [(e.op) for e in adj], loc=adj[0].loc if adj else fi.loc())
+                   all(e.op == "Gt" for e in adj if e.left.kind == K_ARRAY), derived="%s" % [(e.op) for e in adj], loc=adj[0].loc if adj else fi.loc(), inconclusive=not adj)
         if not kaz:
             # the first zero of the series is always kept.  Two spellings are known: (i) the index differences are taken with a literal
             # to_begin > 1, so the first one passes `> 1`; (ii) a keep-mask allocated by np.ones whose elements [1:] are overwritten by the
@@ -98,12 +104,14 @@ def zero_crossing_rules(chk):
             len(cats) == len(cat) + len(pre_cat)
         chk.ob("R-ZC-STRICT", cc + "{assembly}", "result = sorted concatenation of the zero set and the crossing set (no other source of indices)",
                okc and len(srt) == 1, derived="%d joining concatenate, %d prepending, %d other, %d sort" % (len(cat), len(pre_cat), len(cats) - len(cat) - len(pre_cat),
-                                                                                                        len(srt)), loc=cat[0].loc if cat else fi.loc())
+                                                                                                        len(srt)), loc=cat[0].loc if cat else fi.loc(),
+               inconclusive=not cat)
         ins0 = [e for e in r.events("lib-call", ZC) if e.name == "numpy.insert" and e.args[1].has_const() and e.args[1].const == 0 and
                 e.args[2].has_const() and e.args[2].const == 0 and "where-index" in e.args[0].tags] + pre_cat
         guard = [e for e in cm if e.op == "NotEq" and e.right.has_const() and e.right.const == 0 and e.left.kind in (K_SCALAR, K_TOP) and "where-index" in e.left.tags]
         chk.ob("R-ZC-STRICT", cc + "{index 0}", "index 0 is prepended exactly when the first index is not 0", len(ins0) == 1 and len(guard) == 1,
-               derived="%d prepend(s) of 0, %d `[0] != 0` guard" % (len(ins0), len(guard)), loc=ins0[0].loc if ins0 else fi.loc())
+               derived="%d prepend(s) of 0, %d `[0] != 0` guard" % (len(ins0), len(guard)), loc=ins0[0].loc if ins0 else fi.loc(),
+               inconclusive=not ins0 and not guard)
         expect(chk, "R-ZC-STRICT", cc + ".result", r.ret, dtype="int", sign="nonneg", kind=K_ARRAY, tags_has=["where-index"], loc=fi.loc())
     # tolerance
     r = analyse(chk, ZC, lambda I, st, fi: dict(values=rec_array("values"), tol=AV(kind=K_SCALAR, dtype="real", shape=(), sign=S_POS, origin=frozenset(["lit"]),
@@ -117,7 +125,7 @@ def zero_crossing_rules(chk):
     chk.ob("R-TOL-SUB", c + "(tol>0){delete}", "the tolerance only deletes entries of the tol=0 result (np.delete or a boolean keep-mask)",
            len(drops) == 1 and not ops_after and "where-index" in drops[0][1].tags,
            derived="%d deleting op(s) %s, %d inserting op(s) depending on tol" % (len(drops), [d[0] for d in drops], len(ops_after)),
-           loc=drops[0][2] if drops else fi.loc())
+           loc=drops[0][2] if drops else fi.loc(), inconclusive=not drops and not ops_after)
     chk.ob("R-TOL-SUB", c + "(tol>0).result", "the result is a subsequence of the tol=0 result", any("subsequence" in v.tags for v in rets),
            derived="%s" % [sorted(t for t in v.tags if t in ("subsequence",)) for v in rets], loc=fi.loc())
     r = analyse(chk, ZC, lambda I, st, fi: dict(values=rec_array("values"), tol=const_av(-1.0)))
@@ -241,7 +249,18 @@ def switched_rules(chk):
     chk.ob("R-SW-COVER", c + "{loop range}", "the loop covers every remaining peak: range(%s, len(%s))" % (start, src), stop_ok and start is not None,
            derived="range(%s)" % ", ".join(ast.unparse(a) for a in rng), loc=fi.loc(lp))
     # ---- selection
-    r = analyse(chk, SW, lambda I, st, fi: dict(values=rec_array("values")))
+    pk_rets = []
+
+    def _capture(I):
+        orig = I.call_function
+
+        def wrapped(fi_, bound, state, caller_fr, node, self_obj=None, is_entry=False):
+            ret, st_, fl = orig(fi_, bound, state, caller_fr, node, self_obj=self_obj, is_entry=is_entry)
+            if fi_.qualname.endswith(".get_peak_array_indices") and ret is not None and caller_fr is not None and caller_fr.fi is fi:
+                pk_rets.append((ret, fi.loc(node)))
+            return ret, st_, fl
+        I.call_function = wrapped
+    r = analyse(chk, SW, lambda I, st, fi: dict(values=rec_array("values")), setup=_capture)
     unmodelled_in(r, chk, "R-SW-SEL", c)
     am = [e for e in r.events("lib-call", SW) if e.name == "numpy.argmax"]
     seen = set()
@@ -253,26 +272,35 @@ def switched_rules(chk):
         chk.ob("R-SW-SEL", c + "{%s}" % e.stmt, "argmax over |candidate values|", "abs" in a0.tags and alg_parity(a0.a(R)) in ("even", "any") and
                is_nonneg(a0.sign), derived="%s sign %s" % (alg_str(a0.a(R)), a0.sign), loc=e.loc, stmt=e.stmt)
     if not am:
-        chk.ob("R-SW-SEL", c + "{argmax}", "an argmax over the candidates", False, derived="none", loc=fi.loc())
+        chk.ob("R-SW-SEL", c + "{argmax}", "an argmax over the candidates", False, derived="none", loc=fi.loc(), inconclusive=True)
     # chosen index goes through the candidates' own index list
     sel = [n for n in ast.walk(fi.node) if isinstance(n, ast.Call) and isinstance(n.func, ast.Attribute) and n.func.attr == "append" and n.args and
            isinstance(n.args[0], ast.Subscript) and isinstance(n.args[0].value, ast.Name) and n.args[0].value.id == idx_list]
     chk.ob("R-SW-SEL", c + "{index list}", "the chosen position is mapped through the candidates' own index list", len(sel) >= 1 and
-           all(isinstance(n.args[0].slice, ast.Name) for n in sel), derived="%d selection site(s)" % len(sel), loc=fi.loc(sel[0]) if sel else fi.loc())
+           all(isinstance(n.args[0].slice, ast.Name) for n in sel), derived="%d selection site(s)" % len(sel), loc=fi.loc(sel[0]) if sel else fi.loc(), inconclusive=not sel)
     tk = [e for e in r.events("lib-call", SW) if e.name == "numpy.take"]
     final = [e for e in tk if "red:argmax" in e.args[1].tags]
     chk.ob("R-SW-SEL", c + "{final map}", "result = np.take(peak_indices, chosen positions)", len(final) == 1 and "where-index" in final[0].args[0].tags and
-           final[0].args[0].dtype == "int", derived="%d take(s) of chosen positions" % len(final), loc=final[0].loc if final else fi.loc())
+           final[0].args[0].dtype == "int", derived="%d take(s) of chosen positions" % len(final), loc=final[0].loc if final else fi.loc(), inconclusive=not final)
+    # whatever the spelling: the reported indices are elements of the peak-index array, so that array is read element-wise somewhere
+    # (np.take, integer / mask indexing, or a scalar subscript).  Never reading it means positions are reported instead of indices.
+    if len(pk_rets) == 1 and pk_rets[0][0].origin:
+        po = pk_rets[0][0].origin
+        reads = [e for e in tk if e.args[0].origin == po] + \
+            [e for e in r.events("subscript", SW) if e.base.origin == po and e.index is not None and e.index.kind != K_SLICE]
+        chk.ob("R-SW-SEL", c + "{indices read}", "the reported indices are read out of the peak-index array (np.take / indexing)", bool(reads),
+               derived="%d element-wise read(s) of the peak-index array" % len(reads), loc=reads[0].loc if reads else pk_rets[0][1],
+               detail="positions within the peak list are reported instead of sample indices" if not reads else None)
     cm = [e for e in r.events("compare", SW) if e.right.has_const() and e.right.const == 0 and alg_degree(e.left.a(R)) == Exp(2)]
     ops = {e.op for e in cm}
     chk.ob("R-SW-SEL", c + "{boundary}", "an excursion ends when value * reference <= 0 (zeros end an excursion)", ops == {"LtE"},
-           derived="%s" % sorted(ops), loc=cm[0].loc if cm else fi.loc())
+           derived="%s" % sorted(ops), loc=cm[0].loc if cm else fi.loc(), inconclusive=not cm)
     # the boundary decision is that one comparison and nothing else
     bnd = [n for n in ast.walk(fi.node) if isinstance(n, ast.If) and any(isinstance(x, ast.Compare) and isinstance(x.ops[0], (ast.LtE, ast.Lt, ast.GtE, ast.Gt)) and
                                                                          isinstance(x.left, ast.BinOp) and isinstance(x.left.op, ast.Mult) for x in ast.walk(n.test))]
     chk.ob("R-SW-SEL", c + "{boundary test}", "the excursion boundary is decided by the product comparison alone (no further condition)",
            len(bnd) == 1 and isinstance(bnd[0].test, ast.Compare), derived="test `%s`" % (ast.unparse(bnd[0].test) if bnd else None),
-           loc=fi.loc(bnd[0]) if bnd else fi.loc())
+           loc=fi.loc(bnd[0]) if bnd else fi.loc(), inconclusive=not bnd)
     expect(chk, "R-SW-SEL", c + ".result", r.ret, deg={R: 0}, parity={R: "even"}, dtype="int", sign="nonneg", loc=fi.loc())
 
 
